@@ -34,7 +34,7 @@ checks = {
  "C08": ("deterministic simulation: seeded histories mixing definitions, clones and executions after failures, disk/writer/callback faults, 1-3 simulated goroutines; oracle = no panic, no deadlock (wait-for graph), bounded steps per call",
    "exploration", "§5 C08",
    "All workloads and fault kinds of the other checks plus texts outside the core grammar (break/continue, comments, malformed HTML, byte-level mutations) run inside histories that continue after failed calls (syntax errors, ParseFS dying on file 2 of 3, failed analysis, writer faults). "
-   "A panic recovered at an API boundary, a deadlock found by the simulator's scheduler, or a call exceeding its step budget is a violation."),
+   "A panic recovered at an API boundary, a deadlock found by the simulator's scheduler, a call exceeding its step budget, an injected fault that reaches the library as an error but ends in a nil error, or a text that text/template's parser rejects but a Parse* call accepts is a violation."),
  "C07": ("deterministic simulation: seeded interleavings of New/Parse*/Clone/Lookup/Templates/Execute* over a set and its clones with simulated-disk faults; freeze/lineage reference model and lock-step twin worlds",
    "exploration", "§5 C07",
    "Histories over a root set and up to two (transitive) clones through every Parse entry point (function and method forms, simulated disk). Checked: every Parse* after the first execution fails; outputs equal a lock-step twin that skipped the refused parses; "
@@ -42,7 +42,7 @@ checks = {
  "C09": ("deterministic simulation: seeded goroutine schedules over instrumented lock/yield points; schedule-transparent Go race detector + porcupine linearizability check against the sequential implementation",
    "exploration", "§5 C09",
    "2-4 simulated goroutines issue exactly the calls the statement lists against one fully defined set while a seeded scheduler decides every interleaving at lock operations, function entries, loop heads, writes and callbacks of safehtml/template and text/template. "
-   "Race-build runs report any conflicting accesses the library's own locks do not order (the scheduler's hand-over is hidden from the detector); every history is checked with porcupine against the implementation run sequentially."),
+   "Race-build runs report any conflicting accesses the library's own locks do not order (the scheduler's hand-over is hidden from the detector); every history is checked with porcupine against the implementation run sequentially (bytes, error/no error, kind of error, listings as multisets)."),
 }
 import sys
 claimed = sys.argv[1:] or ["C05","C06","C08"]
@@ -51,7 +51,7 @@ m = {
  "setup_cmd": "./setup.sh",
  "hooks": {
    "guard": "verif",
-   "enable": "no hook is committed to /repo: every check copies /repo's working tree to a scratch directory, rewrites package template there with sim/instrument (yields, lock hand-off, map-order and file-system seams; rules R1-R5 of DESIGN §3.2), adds zz_verif_*.go files guarded by //go:build verif, and builds the harness against that copy with -tags verif and a build overlay for GOROOT text/template",
+   "enable": "no hook is committed to /repo: every check copies /repo's working tree to a scratch directory, rewrites package template there with sim/instrument (yields at function entries, loop heads and shared-state statements, lock and sync.Once hand-off, map-order and file-system seams; rules R1-R6 of DESIGN §3.2), adds zz_verif_*.go files guarded by //go:build verif, and builds the harness against that copy with -tags verif and a build overlay for GOROOT text/template",
    "baseline_off_cmd": "cd /repo && GOFLAGS=-mod=mod GOPROXY=off GOSUMDB=off GOTOOLCHAIN=local go test -json -vet=off -count=1 -timeout 25m ./...",
    "source_commits": [],
    "add_only": True,
